@@ -129,6 +129,8 @@ def build_inputs(ctx, cases):
             big = (not ctx.quick) and rep % 5 == 0
             c, rd = content(rng, sym, big)
             h = 0 if sym in ("QR", "DM") else [0, 9, 30, 2][(i + rep) % 4]
+            if sym not in ("QR", "DM") and case["rot"] in (90, 270) and case["scale"] <= 2 and (i + rep) % 3 == 0:
+                h = -5                      # bars 2.5 times as tall as the symbol is wide: turned sideways the image is much wider than high
             ins.append(pose_event(case, c, rd, 1 + (i + rep) % 4, h))
             if sym in ("QR", "DM"):         # the 2-D locating path: two more contents, QR also with a narrower quiet zone
                 for k in (0, 1):
